@@ -14,6 +14,20 @@ ROOT = os.path.dirname(os.path.dirname(os.path.abspath(__file__)))
 REPO = "/repo"
 
 
+def _touch_changed(repo, files=None):
+    """cargo decides by mtime: make sure files changed by an apply / revert are seen as newer than the last build."""
+    import time
+    if files is None:
+        out = subprocess.run(["git", "-C", repo, "diff", "--name-only"], capture_output=True, text=True).stdout
+        files = [f for f in out.splitlines() if f.strip()]
+    now = time.time() + 1
+    for f in files:
+        p = os.path.join(repo, f)
+        if os.path.exists(p):
+            os.utime(p, (now, now))
+    return files
+
+
 def _stash_evidence():
     """Checks rewrite evidence/<id>.json on every run; runs against a deliberately broken /repo must not
     leave their evidence behind (committed evidence has to come from the unchanged tree)."""
@@ -49,9 +63,12 @@ def apply(name):
                 subprocess.run(["git", "-C", REPO, "checkout", "--", "."])
                 sys.exit("mutant %s: pattern occurs %d times in %s" % (name, s.count(e["old"]), e["file"]))
             open(p, "w").write(s.replace(e["old"], e["new"]))
+    _touch_changed(REPO)
 
 def revert():
+    files = _touch_changed(REPO)
     subprocess.run(["git", "-C", REPO, "checkout", "--", "."], check=True)
+    _touch_changed(REPO, files)
 
 def main():
     a = sys.argv[1:]
